@@ -12,7 +12,12 @@ class Node(object):
         node = shutil.which('node')
         if not node:
             raise HarnessError('node is not installed')
-        self.p = subprocess.Popen([node, os.path.join(VERIF, 'js', 'harness.js'), REPO], stdin=subprocess.PIPE,
+        env = dict(os.environ)
+        if os.environ.get('VERIF_AMBIENT') == '1':
+            # the ambient pass: node under a locale with other digits and separators (ICU is built into node) and the same
+            # far-away time zone - the ported functions print and parse plain ASCII figures whatever the locale
+            env.update({'LC_ALL': 'ar_EG.UTF-8', 'LANG': 'ar_EG.UTF-8', 'TZ': 'Pacific/Kiritimati'})
+        self.p = subprocess.Popen([node, os.path.join(VERIF, 'js', 'harness.js'), REPO], stdin=subprocess.PIPE, env=env,
                                   stdout=subprocess.PIPE, stderr=subprocess.PIPE, text=True, bufsize=1)
 
     def batch(self, reqs):
